@@ -247,8 +247,10 @@ def analyse(ck, prog=None):
     circ_bad = circ.uncond_problems(regs[0])
     ob.add({"C06"}, not circ_bad, "UNCOND", "pb/register-uncond", "register_public_inputs is unconditional", loc(regs[0]))
     out = P.norm(regs[0].args[1])
-    seq = _expand_items(v, T.contents(effs, out))
-    ob.add({"C06"}, P.call_name(out) is not None and "Vec" in P.call_name(out), "PROV", "pb/output-vector", "the registered vector is a locally built Vec", loc(regs[0]), T.show(out))
+    # a Vec built empty and appended to, or started from a literal (`vec![a, b, c]`) and appended to: the literal's elements come first
+    init = [("one", x, regs[0]) for x in out[1]] if (isinstance(out, tuple) and out and out[0] == "array") else []
+    seq = _expand_items(v, init + T.contents(effs, out))
+    ob.add({"C06"}, (P.call_name(out) is not None and "Vec" in P.call_name(out)) or bool(init), "PROV", "pb/output-vector", "the registered vector is a locally built Vec", loc(regs[0]), T.show(out)[:200])
 
     def container_pushes(c):
         return T.contents(effs, c)
